@@ -97,6 +97,16 @@ reg("C07", exc_ops=set(), nontrivial=nt_links, hook="network", obs_fail=False,
 reg("C08", exc_ops=set(), nontrivial=nt_links, hook="welinks", obs_fail=False,
     weights={"AddLinks": 24, "IndexBatchCrawl": 16, "CreateWe": 10, "AddPrefix": 6, "RemovePrefix": 5, "DeleteWe": 5},
     profile={"raw": 0.0, "long": 0.1, "nlrus": 12}, n=(80, 1000), steps=(14, 20), title="Per-webentity link queries")
+reg("C09", exc_ops=set(), nontrivial=nt_pages, hook="pagination", obs_fail=False,
+    weights={"Paginate": 40, "AddPage": 30, "AddPages": 8, "CreateWe": 8, "AddPrefix": 8, "AddLinks": 4,
+             "IndexBatchCrawl": 4, "Clear": 0, "DeleteWe": 2, "RemovePrefix": 2, "MovePrefix": 2},
+    profile={"raw": 0.0, "long": 0.2, "nlrus": 18, "extend": 0.3, "continue": 0.55, "concentrate": 1}, steps=(24, 32),
+    title="Page pagination")
+reg("C10", exc_ops=set(), nontrivial=nt_links, hook="paglinks", obs_fail=False,
+    weights={"PagLinks": 40, "AddLinks": 24, "IndexBatchCrawl": 12, "AddPage": 14, "CreateWe": 8, "AddPrefix": 8,
+             "Clear": 0, "DeleteWe": 1, "RemovePrefix": 1, "MovePrefix": 2},
+    profile={"raw": 0.0, "long": 0.2, "nlrus": 16, "extend": 0.2, "continue": 0.8, "concentrate": 1}, steps=(24, 32),
+    title="Pagelink pagination")
 reg("C12", exc_ops=set(), nontrivial=nt_we,
     weights={"CreateWe": 12, "DeleteWe": 8, "Reopen": 10, "AddRule": 8, "Clear": 3},
     profile={"raw": 0.0, "long": 0.1}, title="Webentity ids")
@@ -127,6 +137,8 @@ def make_traces(pid, cfg, tier, seed, work):
         tr = runner.run_online(d, be, steps, hook=hook, tid=i, src="random")
         dropped += d.dropped_family
         traces.append(tr)
+        if impl.TIMEOUTS[0] >= 3:
+            break      # the code under test hangs: enough material for a verdict
     return traces, {"random_histories": n, "steps_per_history": steps, "family_dropped_draws": dropped}
 
 
